@@ -13,6 +13,7 @@ MODULES = [
     'contracts.helpers',
     'contracts.runinfo',
     'contracts.paramobj',
+    'contracts.multichain',
 ]
 
 
